@@ -1302,7 +1302,13 @@ pub(crate) fn eval_query(ctx: &Context, expr: &Query) -> Result<QueryReply, Quer
                 dim_name = ctx
                     .canonicalize(dim.as_str())
                     .unwrap_or_else(|| dim.to_string());
-                let category = ctx.registry.categories.get(&dim_name);
+                // The category was recorded under the name the base unit was
+                // defined with (`kg`), it is listed by its long name.
+                let category = ctx
+                    .registry
+                    .categories
+                    .get(&dim_name)
+                    .or_else(|| ctx.registry.categories.get(dim.as_str()));
                 out.push((category, &dim_name));
             }
             out.sort_by(|&(ref c1, ref n1), &(ref c2, ref n2)| {
